@@ -79,6 +79,8 @@ def build(rng, kind):
 
 def table(ld, kind):
     f = ld.molecules.features
+    if "tag" not in f.columns:
+        return []
     ids = f["image-id"].to_list() if "image-id" in f.columns else [0] * len(f)
     return list(zip(f["tag"].to_list(), [int(i) for i in ids], f["v"].to_list()))
 
@@ -126,9 +128,9 @@ def run_history(rng, kind, maxlen):
             new = cur.filter(pl.col("tag") % a == b)
             term, py = f"OFilter {zl(a)} {zl(b)}", ["filter", a, b]
         elif k == 1:
-            m = int(rng.integers(1, n + 2)); new = cur.head(m); term, py = f"OHead {natl(m)}", ["head", m]
+            m = int(rng.integers(0, n + 2)); new = cur.head(m); term, py = f"OHead {natl(m)}", ["head", m]
         elif k == 2:
-            m = int(rng.integers(1, n + 2)); new = cur.tail(m); term, py = f"OTail {natl(m)}", ["tail", m]
+            m = int(rng.integers(0, n + 2)); new = cur.tail(m); term, py = f"OTail {natl(m)}", ["tail", m]
         elif k == 3:
             desc = bool(rng.integers(0, 2))
             new = cur.replace(molecules=cur.molecules.sort("v", descending=desc)); term, py = f"OSort {bl(desc)}", ["sort", desc]
@@ -139,12 +141,12 @@ def run_history(rng, kind, maxlen):
             idx = [int(i) for i in rng.permutation(n)[:int(rng.integers(1, n + 1))]]
             new = cur.replace(molecules=cur.molecules.subset(idx))
             term, py = f"OSubset {lst([natl(i) for i in idx])}", ["subset", idx]
-        if new.count() == 0:
-            continue
         snapshots.append((new, table(new, kind), new.molecules.pos.copy()))
         o = observe(new, kind, lookup, snapshots)
         hist_terms.append(f"({term}, {obs_lit(o)})")
         hist_py.append(py + [o[0], {"loaded": o[1], "applied": o[2], "pure": o[6]}])
+        if new.count() == 0:
+            break            # an empty loader ends the history (its table is still checked)
         cur = new
     return f"(check_hist {rows_lit(rows0)} {lst(hist_terms)})", {"kind": kind, "history": hist_py}
 
